@@ -237,6 +237,7 @@ def run(chk):
     for o, s, r in items[-2:]:
         chk.sample(s[:300])
     c08.replay_known(chk, binary, witness_fails_c09(known, c08_known))
+    fails.sort(key=lambda f: len(f.get("formatted_decl") or f.get("source") or ""))      # smallest failing input first
     for f in fails[:15]:
         chk.violation("failing-input", f)
     if not fails:
